@@ -43,7 +43,30 @@ def main(argv=None):
         mod = importlib.import_module("sa.props.%s" % args.prop)
         if args.replay:
             return replay(mod, args.prop, args.replay)
-        res = mod.run(tier=args.tier, seed=seed, use_cache=not args.no_cache)
+        thorough = args.tier == "thorough"
+        res = mod.run(tier=args.tier, seed=seed, use_cache=not (args.no_cache or thorough))
+        if thorough:
+            from . import selftest
+            st = selftest.run(args.prop, seed=seed)
+            res.extra["mutation_adequacy"] = {
+                "rule": "each breaking operator is applied at up to 3 of its sites in a scratch "
+                        "copy of the sources (the variant must still parse) and the quick "
+                        "analysis must report a violation; equivalence operators must stay silent",
+                "variants": st["variants"], "summary": st["summary"],
+                "results": [{k: v for k, v in r.items()} for r in st["results"]],
+            }
+            res.extra["recomputed_without_cache"] = True
+            res.obligations += st["variants"]
+            res.instances["SELFTEST"] = st["variants"]
+            fa = [r for r in st["results"] if r["outcome"] == "FALSE-ALARM"]
+            sv = [r for r in st["results"] if r["outcome"] == "survived"]
+            print("%s thorough: %d checker variants: %s" % (args.prop, st["variants"], st["summary"]))
+            for r in fa:
+                print("  CHECKER-WARNING false alarm on equivalence edit %s (%s:%s) rules=%s"
+                      % (r["op"], r["file"], r.get("line"), r.get("rules")))
+            for r in sv:
+                print("  CHECKER-NOTE surviving mutant %s (%s:%s): %s"
+                      % (r["op"], r["file"], r.get("line"), r["what"]))
         return engine.finish(res, args.tier, seed, t0)
     except AnalysisError as e:
         print("ANALYSIS-ERROR property=%s %s" % (args.prop, e))
